@@ -114,6 +114,38 @@ Lemma adjust_dir_kind_s d t : t_kind (adjust_dir d t) = t_kind t.
 Proof. unfold adjust_dir. destruct d, (t_dir t); reflexivity. Qed.
 Lemma on_found_kind_s d t : t_kind (on_found d t) = t_kind t.
 Proof. unfold on_found. rewrite adjust_dir_kind_s. destruct d; reflexivity. Qed.
+Lemma on_answered_pr w od t : pr (on_answered w od t) = pr t.
+Proof. destruct od; reflexivity. Qed.
+Lemma attach_track_pr t : pr (attach_track t) = pr t. Proof. reflexivity. Qed.
+Lemma detach_track_pr t : pr (detach_track t) = pr t.
+Proof. unfold detach_track. destruct (t_dir t); reflexivity. Qed.
+
+Lemma cur_dirs_loop_pr w secs : forall l,
+  map pr (strip (cur_dirs_loop w secs l)) = map pr (strip l).
+Proof.
+  induction secs as [|[[k m] od] rest IH]; intro l; [reflexivity|].
+  cbn [cur_dirs_loop]. destruct (String.eqb m ""); [reflexivity|].
+  assert (Hf : map pr (strip match find_upd (by_mid m) (on_answered w od) l with
+                             | Some (_, l') => cur_dirs_loop w rest l'
+                             | None => l
+                             end) = map pr (strip l)).
+  { destruct (find_upd (by_mid m) (on_answered w od) l) as [[t l']|] eqn:F; [|reflexivity].
+    rewrite IH. apply find_upd_some in F. destruct F as (l1 & l2 & -> & -> & _).
+    rewrite !strip_app, !map_app. cbn [strip map fst]. rewrite on_answered_pr. reflexivity. }
+  destruct k; try exact Hf. apply IH.
+Qed.
+
+Lemma set_cur_dirs_pr w secs l : map pr (set_cur_dirs w secs l) = map pr l.
+Proof. unfold set_cur_dirs. rewrite cur_dirs_loop_pr, strip_fresh. reflexivity. Qed.
+
+Lemma reuse_for_track_pr k l l' : reuse_for_track k l = Some l' -> map pr l' = map pr l.
+Proof.
+  revert l'. induction l as [|t rest IH]; intros l' H; [discriminate|]. cbn [reuse_for_track] in H.
+  destruct (send_allowed k t).
+  - injection H as <-. reflexivity.
+  - destruct (reuse_for_track k rest) as [r|]; [|discriminate]. injection H as <-.
+    cbn [map]. rewrite (IH _ eq_refl). reflexivity.
+Qed.
 
 Lemma alloc_mids_keeps l : forall g, keeps l (snd (alloc_mids g l)).
 Proof.
@@ -122,9 +154,9 @@ Proof.
   - destruct (alloc_mids (wrap_int (g + 1)) rest) as [g2 rest'] eqn:E. cbn [snd]. constructor.
     + split; [reflexivity|]. intro H. unfold mid_unset in U. apply String.eqb_eq in U. contradiction.
     + specialize (IH (wrap_int (g + 1))). rewrite E in IH. exact IH.
-  - destruct (alloc_mids (bump g (t_mid t)) rest) as [g2 rest'] eqn:E. cbn [snd]. constructor.
+  - destruct (alloc_mids g rest) as [g2 rest'] eqn:E. cbn [snd]. constructor.
     + apply same_tr_refl.
-    + specialize (IH (bump g (t_mid t))). rewrite E in IH. exact IH.
+    + specialize (IH g). rewrite E in IH. exact IH.
 Qed.
 
 Lemma srd_loop_keeps secs : forall l, keeps (strip l) (strip (fst (srd_loop secs l))).
@@ -150,7 +182,7 @@ Proof.
         apply find_upd_some in S. destruct S as (l1 & l2 & -> & -> & Hp & _).
         apply sat_pred_unset in Hp.
         eapply keeps_trans; [|apply IH]. rewrite !strip_app. cbn [strip map fst].
-        apply keeps_replace. split; [cbn; apply adjust_dir_kind_s|intro H; contradiction].
+        apply keeps_replace. split; [cbn; rewrite adjust_dir_kind_s; reflexivity|intro H; contradiction].
       + eapply keeps_trans; [|apply IH]. rewrite strip_app. apply keeps_app_r. }
   destruct (r_kind r); cbn [media_kind]; try apply IH.
   - destruct (r_dir r) as [d|]; [apply Hmedia|apply IH].
@@ -181,10 +213,10 @@ Qed.
 Lemma create_answer_keeps s : keeps (trs s) (trs (fst (create_answer s))).
 Proof.
   apply keeps_of_pr. unfold create_answer. destruct (remote_desc s) as [d|]; [|reflexivity].
-  destruct (sig s); try reflexivity.
   pose proof (gen_matched_pr s d false) as H.
-  destruct (gen_matched s d false) as [l [[[secs add] g]|e|]]; cbn [fst] in *; try exact H.
-  destruct (populate _ g secs) as [p|e|]; exact H.
+  destruct (sig s); try reflexivity;
+    (destruct (gen_matched s d false) as [l [[[secs add] g]|e|]]; cbn [fst] in *; try exact H;
+     destruct (populate _ g secs) as [p|e|]; exact H).
 Qed.
 
 Lemma finish_senders_keeps s : keeps (trs s) (trs (fst (finish_senders s))).
@@ -193,11 +225,50 @@ Proof.
   destruct (start_senders (has_codecs s) (trs s)) as [l e]. exact H.
 Qed.
 
+Lemma set_local_keeps s ty : keeps (trs s) (trs (fst (set_local s ty))).
+Proof.
+  unfold set_local. destruct (local_next (sig s) ty) as [g|]; [|apply keeps_refl].
+  destruct ty; try apply keeps_refl.
+  set (s1 := set_sig_remote s g (pend_remote s) None).
+  destruct (remote_desc s1); [|apply keeps_refl].
+  set (s2 := set_trs s1 _).
+  eapply keeps_trans; [|apply finish_senders_keeps].
+  apply keeps_of_pr. unfold s2. cbn [trs set_trs]. apply set_cur_dirs_pr.
+Qed.
+
+Lemma set_remote_keeps s ty d : keeps (trs s) (trs (fst (set_remote s ty d))).
+Proof.
+  unfold set_remote. destruct (remote_next (sig s) ty) as [g|]; [|apply keeps_refl].
+  assert (Hloop :
+    let s1 := set_sig_remote s g (cur_remote s) (Some d) in
+    let s2 := set_engine s1 (engine_update (r_secs d) (neg_audio s1) (neg_video s1)) in
+    keeps (trs s) (trs (fst (let '(l, e) := srd_loop (r_secs d) (fresh_local (trs s2)) in
+              (set_trs s2 (strip l), match e with Some c => Err c | None => Ok tt end))))).
+  { intros s1 s2.
+    pose proof (srd_loop_keeps (r_secs d) (fresh_local (trs s2))) as H.
+    destruct (srd_loop (r_secs d) (fresh_local (trs s2))) as [l e]. cbn [fst] in *.
+    rewrite strip_fresh in H. exact H. }
+  destruct ty; try exact Hloop.
+  set (s1 := set_sig_remote s g (Some d) None).
+  set (s2 := set_engine s1 (engine_update (r_secs d) (neg_audio s1) (neg_video s1))).
+  set (s3 := set_trs s2 _).
+  eapply keeps_trans; [|apply finish_senders_keeps].
+  apply keeps_of_pr. unfold s3. cbn [trs set_trs]. apply set_cur_dirs_pr.
+Qed.
+
 Lemma step_keeps s o : keeps (trs s) (trs (fst (step s o))).
 Proof.
   destruct o; cbn [step].
   - unfold add_transceiver. destruct d; try destruct (has_codecs s k); cbn [fst trs set_trs];
       try apply keeps_refl; apply keeps_app_r.
+  - unfold add_track. destruct (reuse_for_track k (trs s)) as [l|] eqn:E; cbn [fst trs set_trs].
+    + apply keeps_of_pr. eapply reuse_for_track_pr. exact E.
+    + apply keeps_app_r.
+  - unfold remove_track. destruct (nth_error (trs s) i) as [t|]; [|apply keeps_refl].
+    destruct (t_sender t); [|apply keeps_refl]. cbn [fst trs set_trs].
+    destruct (upd_nth i detach_track (trs s)) as [l|] eqn:E; [|apply keeps_refl].
+    eapply upd_nth_keeps; [|exact E]. intro t0. unfold same_tr.
+    pose proof (detach_track_pr t0) as Hp. unfold pr in Hp. injection Hp as Hm Hk. split; auto.
   - unfold stop_transceiver. destruct (upd_nth i stop_tr (trs s)) as [l|] eqn:E; cbn [fst]; [|apply keeps_refl].
     cbn [trs set_trs]. eapply upd_nth_keeps; [|exact E]. intro t. split; reflexivity.
   - cbn. apply keeps_refl.
@@ -205,20 +276,10 @@ Proof.
     pose proof (create_offer_keeps s) as H. rewrite E in H. exact H.
   - destruct (create_answer s) as [s' r] eqn:E. cbn [fst].
     pose proof (create_answer_keeps s) as H. rewrite E in H. exact H.
-  - destruct (set_local s ty) as [s' r] eqn:E. cbn [fst]. unfold set_local in E. destruct ty.
-    + destruct (sig s); injection E as <- _; apply keeps_refl.
-    + destruct (sig s); try (injection E as <- _; apply keeps_refl).
-      pose proof (finish_senders_keeps (set_sig_remote s Stable (pend_remote s) None)) as H.
-      rewrite E in H. exact H.
-  - destruct (set_remote s ty d) as [s' r] eqn:E. cbn [fst]. unfold set_remote in E. destruct ty.
-    + destruct (sig s); try (injection E as <- _; apply keeps_refl).
-      set (s2 := set_engine _ _) in E.
-      pose proof (srd_loop_keeps (r_secs d) (fresh_local (trs s2))) as H.
-      destruct (srd_loop (r_secs d) (fresh_local (trs s2))) as [l e]. injection E as <- _.
-      rewrite strip_fresh in H. exact H.
-    + destruct (sig s); try (injection E as <- _; apply keeps_refl).
-      set (s2 := set_engine _ _) in E.
-      pose proof (finish_senders_keeps s2) as H. rewrite E in H. exact H.
+  - destruct (set_local s ty) as [s' r] eqn:E. cbn [fst].
+    pose proof (set_local_keeps s ty) as H. rewrite E in H. exact H.
+  - destruct (set_remote s ty d) as [s' r] eqn:E. cbn [fst].
+    pose proof (set_remote_keeps s ty d) as H. rewrite E in H. exact H.
 Qed.
 
 Lemma run_from_keeps ops : forall s, keeps (trs s) (trs (run_from s ops)).
@@ -311,19 +372,19 @@ Lemma answer_same_positions_lemma s s' d rd :
   sec_mids d = map Some (map r_mid (r_secs rd)).
 Proof.
   intros H R Hus Hcod. unfold create_answer in H. rewrite R in H.
-  destruct (sig s); try discriminate.
-  destruct (gen_matched s rd false) as [l [[[secs add] g]|e|]] eqn:E; try discriminate.
-  destruct (populate (has_codecs (set_trs s l)) g secs) as [p|e|] eqn:P; try discriminate.
-  injection H as _ <-. rewrite (sec_mids_populate _ _ _ _ Hcod P). f_equal.
-  unfold gen_matched in E.
-  destruct (match_loop (r_secs rd) (fresh_local (trs s)) [] false) as [l0 [[acc app]|e|]] eqn:M; try discriminate.
-  injection E as _ <- _ _. exact (match_loop_usable_ids _ _ _ _ _ _ _ Hus M).
+  destruct (sig s); try discriminate;
+    (destruct (gen_matched s rd false) as [l [[[secs add] g]|e|]] eqn:E; try discriminate;
+     destruct (populate (has_codecs (set_trs s l)) g secs) as [p|e|] eqn:P; try discriminate;
+     injection H as _ <-; rewrite (sec_mids_populate _ _ _ _ Hcod P); f_equal;
+     unfold gen_matched in E;
+     destruct (match_loop (r_secs rd) (fresh_local (trs s)) [] false) as [l0 [[acc app]|e|]] eqn:M; try discriminate;
+     injection E as _ <- _ _; exact (match_loop_usable_ids _ _ _ _ _ _ _ Hus M)).
 Qed.
 
 (* ---------- a whole round: offers after an exchange extend its descriptions ---------- *)
 Definition is_local (o : op) : Prop :=
   match o with
-  | AddTransceiver _ _ | StopTransceiver _ | CreateDataChannel | CreateOffer => True
+  | AddTransceiver _ _ | AddTrack _ | RemoveTrack _ | StopTransceiver _ | CreateDataChannel | CreateOffer => True
   | _ => False
   end.
 
@@ -333,6 +394,9 @@ Lemma step_local_remote s o :
 Proof.
   destruct o; cbn [is_local step]; intro H; try contradiction.
   - unfold add_transceiver. destruct d; try destruct (has_codecs s k); split; reflexivity.
+  - unfold add_track. destruct (reuse_for_track k (trs s)); split; reflexivity.
+  - unfold remove_track. destruct (nth_error (trs s) i) as [t|]; [|split; reflexivity].
+    destruct (t_sender t); split; reflexivity.
   - unfold stop_transceiver. destruct (upd_nth i stop_tr (trs s)); split; reflexivity.
   - split; reflexivity.
   - destruct (create_offer s) as [s' r] eqn:E. cbn [fst].
@@ -372,20 +436,6 @@ Proof.
 Qed.
 
 (* ---------- fresh mids ---------- *)
-(* no increment of the numbering loop leaves the int range *)
-Fixpoint alloc_nowrap (g : Z) (l : list tr) : bool :=
-  match l with
-  | [] => true
-  | t :: rest =>
-      if mid_unset t then in_int (g + 1) && alloc_nowrap (g + 1) rest
-      else alloc_nowrap (bump g (t_mid t)) rest
-  end.
-
-Lemma bump_ge g m : (g <= bump g m)%Z.
-Proof. unfold bump. destruct (atoi m) as [n|]; [|lia]. destruct (Z.gtb n g) eqn:E; [|lia]. apply Z.gtb_lt in E. lia. Qed.
-Lemma bump_covers g m n : atoi m = Some n -> (n <= bump g m)%Z.
-Proof. unfold bump. intros ->. destruct (Z.gtb n g) eqn:E; [lia|]. rewrite Z.gtb_ltb in E. apply Z.ltb_ge in E. exact E. Qed.
-
 Lemma alloc_mids_fresh l : forall g m i t t',
   alloc_nowrap g l = true ->
   (forall n, atoi m = Some n -> (n <= g)%Z) ->
@@ -402,48 +452,49 @@ Proof.
     + apply (IH (g + 1)%Z m i t t'); auto.
       * intros n Hn0. specialize (Hm n Hn0). lia.
       * rewrite E. exact Hn'.
-  - destruct (alloc_mids (bump g (t_mid x)) rest) as [g2 rest'] eqn:E. cbn [snd] in Hn'.
+  - destruct (alloc_mids g rest) as [g2 rest'] eqn:E. cbn [snd] in Hn'.
     destruct i as [|i]; cbn in Hn, Hn'.
     + injection Hn as <-. unfold mid_unset in U. rewrite Hunset in U. discriminate.
-    + apply (IH (bump g (t_mid x)) m i t t'); auto.
-      * intros n Hn0. specialize (Hm n Hn0). pose proof (bump_ge g (t_mid x)). lia.
-      * rewrite E. exact Hn'.
+    + apply (IH g m i t t'); auto. rewrite E. exact Hn'.
 Qed.
 
-Lemma bump_remote_ge g d : (g <= bump_remote g d)%Z.
-Proof.
-  unfold bump_remote. destruct d as [d|]; [|lia]. revert g. induction (r_secs d) as [|r rest IH]; intro g; cbn [fold_left]; [lia|].
-  destruct (String.eqb (r_mid r) ""); [apply IH|]. pose proof (bump_ge g (r_mid r)). specialize (IH (bump g (r_mid r))). lia.
-Qed.
-
-Lemma bump_remote_covers d : forall g r n,
-  In r (r_secs d) -> atoi (r_mid r) = Some n -> (n <= bump_remote g (Some d))%Z.
-Proof.
-  unfold bump_remote. induction (r_secs d) as [|x rest IH]; intros g r n Hin Hn; [destruct Hin|].
-  cbn [fold_left]. destruct Hin as [<-|Hin].
-  - assert (Hne : String.eqb (r_mid x) "" = false).
-    { destruct (String.eqb (r_mid x) "") eqn:E; auto. apply String.eqb_eq in E. rewrite E in Hn. discriminate. }
-    rewrite Hne. pose proof (bump_covers g _ _ Hn).
-    pose proof (bump_remote_ge (bump g (r_mid x)) (Some {| r_secs := rest; r_group := None |})) as Hge.
-    unfold bump_remote in Hge. cbn [r_secs] in Hge. lia.
-  - destruct (String.eqb (r_mid x) ""); eapply IH; eauto.
-Qed.
-
-Definition offer_nowrap (s : st) : bool :=
-  alloc_nowrap (bump_remote (gmid s) (cur_remote s)) (trs s).
-
-(* a mid CreateOffer hands out differs from every mid of the current remote
-   description, as long as greaterMid does not overflow *)
-Lemma fresh_mid_not_in_current_remote_lemma s i t t' r :
+(* a mid CreateOffer hands out differs from every mid of the current and of the
+   pending remote description, as long as greaterMid does not overflow *)
+Lemma fresh_mid_not_in_remote_lemma s i t t' r :
   offer_nowrap s = true ->
   nth_error (trs s) i = Some t -> t_mid t = "" ->
   nth_error (trs (offer_alloc s)) i = Some t' ->
-  In r (remote_secs (cur_remote s)) -> t_mid t' <> r_mid r.
+  In r (remote_secs (cur_remote s)) \/ In r (remote_secs (pend_remote s)) -> t_mid t' <> r_mid r.
 Proof.
   intros Hnw Hn Hunset Hn' Hr. rewrite offer_alloc_trs in Hn'.
   eapply alloc_mids_fresh; eauto.
-  intros n Hnum. destruct (cur_remote s) as [d|]; [|destruct Hr].
-  eapply bump_remote_covers; eauto.
+  intros n Hnum. destruct Hr as [Hr|Hr].
+  - destruct (cur_remote s) as [d|] eqn:C; [|destruct Hr]. eapply offer_start_covers_cur; eauto.
+  - destruct (pend_remote s) as [d|] eqn:C; [|destruct Hr]. eapply offer_start_covers_pend; eauto.
+Qed.
+
+(* ... and from the mid of every transceiver, wherever it stands in the list *)
+Lemma fresh_mid_not_a_transceiver_mid_lemma s i t t' u :
+  offer_nowrap s = true ->
+  nth_error (trs s) i = Some t -> t_mid t = "" ->
+  nth_error (trs (offer_alloc s)) i = Some t' ->
+  In u (trs s) -> t_mid t' <> t_mid u.
+Proof.
+  intros Hnw Hn Hunset Hn' Hu. rewrite offer_alloc_trs in Hn'.
+  eapply alloc_mids_fresh; eauto.
+  intros n Hnum. eapply offer_start_covers_trs; eauto.
+Qed.
+
+Lemma fresh_mid_not_in_use_lemma s i t t' :
+  offer_nowrap s = true ->
+  nth_error (trs s) i = Some t -> t_mid t = "" ->
+  nth_error (trs (offer_alloc s)) i = Some t' ->
+  (forall r, In r (remote_secs (cur_remote s)) \/ In r (remote_secs (pend_remote s)) -> t_mid t' <> r_mid r) /\
+  (forall u, In u (trs s) -> t_mid t' <> t_mid u).
+Proof.
+  intros Hw Hn Hu Hn'. split.
+  - intros r Hr. exact (fresh_mid_not_in_remote_lemma s i t t' r Hw Hn Hu Hn' Hr).
+  - intros u Hin. exact (fresh_mid_not_a_transceiver_mid_lemma s i t t' u Hw Hn Hu Hn' Hin).
 Qed.
 
 (* ---------- witnesses ---------- *)
@@ -475,13 +526,18 @@ Lemma wit_c09_local_data :
     [[(KApplication, Some "0")]; [(KAudio, Some "0"); (KApplication, Some "1")]].
 Proof. vm_compute. reflexivity. Qed.
 
-(* remote offer [audio 40, message 41] pending; AddTransceiver; CreateOffer: fresh mid "41" *)
-Definition wit_pending : list op :=
+(* remote offer [audio 40, message 41] pending; AddTransceiver; CreateOffer: before
+   the repair of the numbering loop the fresh mid was "41"; now it is "42" *)
+Definition was_pending : list op :=
   [SetRemote TOffer (rd [rs KAudio "40" (Some Sendrecv); rs KOther "41" (Some Sendonly)] "BUNDLE 40 41");
    AddTransceiver MVideo Recvonly; CreateOffer].
-Lemma wit_c09_pending :
-  gen_kind_mids wit_pending = [[(KAudio, Some "40"); (KVideo, Some "41")]].
+Lemma was_pending_now :
+  gen_kind_mids was_pending = [[(KAudio, Some "40"); (KVideo, Some "42")]].
 Proof. vm_compute. reflexivity. Qed.
+
+(* greaterMid wraps: two transceivers end up with the mid MinInt64 *)
+Lemma wit_c09_overflow : ~ NoDup (set_mids (trs (run wit_overflow))).
+Proof. intro H. apply nodupb_sound in H. vm_compute in H. discriminate. Qed.
 
 (* premises of the extension lemma on a concrete renegotiation *)
 Definition st_reneg : st :=
